@@ -261,3 +261,8 @@ func init() {
 	prop("C13", "C13-R11")
 	prop("C14", "C13-R11")
 }
+
+func init() {
+	prop("C16", "C16-R6")
+	prop("C05", "C16-R6")
+}
